@@ -306,7 +306,7 @@ class Body:
         out = []
         p = self.pure(e, defined)
         if p is not None:
-            return "Ok %s" % p
+            return "(Ok %s)" % p
         code = self.expr(e, out, defined)
         return "(" + self.seq(out, code) + ")"
 
